@@ -7,7 +7,7 @@ from fractions import Fraction as Fr
 import numpy as np
 from hypothesis import strategies as st
 
-from vf.common import Check, Violation, require
+from vf.common import Check, HarnessError, Violation, require
 from vf.strategies import CRS_POOL, FA, affines, mk_affine, mk_crs_spec
 
 RULE = (
@@ -482,9 +482,65 @@ def o_diff(case, T):
     T.cls("overlap:" + ("none" if n_in == 0 else "full" if n_out == 0 else "partial"))
 
 
+# ----------------------------------------------------------------------------- global lon/lat source reaching past +-180
+def e_overhang(tier):
+    """Whole-world EPSG:4326 mosaics whose pixel edges reach a hair past +-180 (rounding when the file was made),
+    read into map tiles of cylindrical projections - including the tiles that touch the antimeridian."""
+    for r in (1.0, 0.5) if tier == "quick" else (1.0, 0.5, 0.25, 0.1):
+        for delta in (1e-6, 1e-5, 1e-9):
+            for dcrs in ("3857", "6933"):
+                for z in (1, 2, 3):
+                    n = 2**z
+                    for tx in sorted({0, n - 1, n // 2}):
+                        for ty in sorted({n // 2 - 1, n // 2}):
+                            for opts in ({"padding": None, "align": None}, {"padding": 0, "align": None}, {"padding": 2, "align": 4}):
+                                yield {"r": r, "delta": delta, "dcrs": dcrs, "z": z, "tx": tx, "ty": ty, "opts": opts, "tile_px": 24 if (tx + ty) % 2 else 17}
+
+
+def o_overhang(case, T):
+    from affine import Affine
+    from odc.geo.geobox import GeoBox
+    from odc.geo.overlap import compute_reproject_roi
+    from pyproj import Transformer
+
+    r, delta = case["r"], case["delta"]
+    W, H = round(360 / r), round(180 / r)
+    k = 1 + delta
+    src = GeoBox((H, W), Affine(r * k, 0, -180.0 * k, 0, -r, 90.0), "EPSG:4326")
+    n = 2 ** case["z"]
+    if case["dcrs"] == "3857":
+        half = math.pi * 6378137.0
+        x0, x1, y0, y1 = -half, half, -half, half
+    else:
+        x0, x1, y0, y1 = -17367530.445161, 17367530.445161, -7314540.83064, 7314540.83064
+    tw, th = (x1 - x0) / n, (y1 - y0) / n
+    npx = case["tile_px"]
+    dst = GeoBox((npx, npx), Affine(tw / npx, 0, x0 + case["tx"] * tw, 0, -th / npx, y1 - case["ty"] * th), "EPSG:" + case["dcrs"])
+    tr = Transformer.from_crs(int(case["dcrs"]), 4326, always_xy=True)
+    Ad, iAs = dst.affine, ~src.affine
+
+    def srcmap(i, j):
+        wx, wy = Ad * (i + 0.5, j + 0.5)
+        lon, lat = tr.transform(wx, wy)
+        if not (math.isfinite(lon) and math.isfinite(lat)):
+            return None
+        return iAs * (lon, lat)
+
+    o = case["opts"]
+    info = compute_reproject_roi(src, dst, padding=o["padding"], align=o["align"])
+    n_in, n_out = check_plan(info, src, dst, srcmap, T, o, False)
+    if n_in == 0:
+        raise HarnessError("overhang case without a single needed pixel")
+    T.cls("tile_touches_antimeridian" if case["tx"] in (0, n - 1) else "tile_mid_longitude")
+    T.cls("dst:" + case["dcrs"])
+    if case["tx"] in (0, n - 1):
+        T.nontrivial()
+
+
 def build(chk: Check) -> None:
     chk.sub("same_crs", o_same, cov={"quick": 1500, "thorough": 100000}, strategy=s_same(), n={"quick": 5000, "thorough": 300000})
     chk.sub("diff_crs", o_diff, strategy=s_diff(), n={"quick": 700, "thorough": 40000}, shrink=False)
     chk.sub("diff_crs_regional", o_diff, strategy=s_diff(regional=True), n={"quick": 250, "thorough": 12000}, shrink=False)
     chk.sub("diff_crs_thumbnail", o_diff, strategy=s_diff(thumb=True), n={"quick": 500, "thorough": 20000}, shrink=False)
     chk.sub("diff_crs_wide", o_diff, strategy=s_diff(wide=True), n={"quick": 300, "thorough": 15000}, shrink=False)
+    chk.sub("global_source_overhang", o_overhang, enum=e_overhang, exhaustive_tiers=("quick", "thorough"))
